@@ -124,4 +124,31 @@ theorem SaveOk.of_eq {s s1 : Store} (h : SaveOk s) (hq : s1.toSave = s.toSave)
   · rw [hq]; exact h1 p (e1 ▸ hp)
   · rw [e1]; exact h2 (e2 ▸ hs)
 
+/-! ### inverse laws on one row -/
+
+theorem unRevAdd_revAdd (r : Row) (c : AttrId) (item : ObjId) (h1 : r.items c item = false) (h2 : r.added c item = false) :
+    (r.revAdd c item (r.removed c item)).unRevAdd c item (r.removed c item) = r := by
+  cases r with | mk ent status pk savePos wbits val items added removed count =>
+  simp only [Row.revAdd, Row.unRevAdd] at *
+  congr 1
+  · exact set2_undo _ _ _ _ _ h1
+  · cases hr : removed c item <;> simp [set2_undo, h2]
+  · cases hr : removed c item <;> simp [set2_undo, hr]
+  · funext a; simp only [set1]; split <;> simp_all <;> omega
+
+theorem unRevRemove_revRemove (r : Row) (c : AttrId) (item : ObjId) (h1 : r.items c item = true) (h2 : r.removed c item = false) :
+    (r.revRemove c item (r.added c item)).unRevRemove c item (r.added c item) = r := by
+  cases r with | mk ent status pk savePos wbits val items added removed count =>
+  simp only [Row.revRemove, Row.unRevRemove] at *
+  congr 1
+  · exact set2_undo _ _ _ _ _ h1
+  · cases hr : added c item <;> simp [set2_undo, hr]
+  · cases hr : added c item <;> simp [set2_undo, h2]
+  · funext a; simp only [set1]; split <;> simp_all <;> omega
+
+theorem putColl_putColl (r : Row) (c : AttrId) (i a rm : ObjId → Bool) (n : Int) :
+    (r.putColl c i a rm n).putColl c (r.items c) (r.added c) (r.removed c) (r.count c) = r := by
+  cases r with | mk ent status pk savePos wbits val items added removed count =>
+  simp only [Row.putColl, set1_set1, set1_self]
+
 end PonyVerif.Model.Undo
